@@ -4,11 +4,16 @@ Shape: history + executable model, the model being the *serial run of the same l
 For every analysis that fans out over a process pool one case = one concrete input + a list of runs
 
     run 0   num_procs=1, no delays, global numpy RNG state A          -> reference
-    run 1   the same again                                            -> "repeat"
-    run 2   num_procs=1, global numpy RNG state B                     -> "global-rng" (nobody passed a seed, so the
+    run 1   the same again INSIDE the reference's process             -> "repeat-same-process"
+    run 2   the same again in another fresh process                   -> "repeat"
+    run 3   num_procs=1, global numpy RNG state B                     -> "global-rng" (nobody passed a seed, so the
                                                                          state of numpy's global RNG is not an input)
-    run 3.. num_procs in 2..16, delay schedule in {none, reverse, rotate-k, alternate, random}  -> "pool" / "sched"
+    run 4.. num_procs in 2..16, delay schedule in {none, reverse, rotate-k, alternate, random}  -> "pool" / "sched"
     last    set_default_num_procs(k) + num_procs=0, then restore      -> "default-procs"
+
+Every run (run 1 excepted) is executed in its own freshly forked child of the shard process, which itself never executes
+an analysis: no state left behind in module globals by an earlier run (memo tables, caches, RNG state) can make two runs
+agree or disagree by accident; pool workers are forked from that clean child.  Results come back through a pipe.
 
 and every run must return the reference's winner identity (method/weight; smoothing/interpolation/window;
 log F_ext list + suggested num_RC; num_RC list) and bit-identical numeric fields.  The pool worker functions are re-bound
